@@ -33,6 +33,12 @@ def run(ctx):
             # ASCII text that an encoding detector may take for UTF-7 / HZ: the file route must read it as the text does
             [[['A', 'a+AOk-b', []], ['B', '~{abcd~}', [' ~{x~} +AOk-']]]],
             [[['Description', 'x +ZeVnLIqe- y', [' +AGEAYgBj-', ' ~{<:Ky2;S{#,NpJ)l6HK!#~}']]], [['C', '~~ ~{', []]]]] + docs
+    # large documents (beyond 64 KiB and 4096 lines) with dense separators: run through the text and the file routes,
+    # not handed to the model
+    big = []
+    for n in ([30000, 45000, 60000] if ctx.quick() else [30000, 45000, 60000, 100000, 150000, 200000]):
+        doc, seps = D.dense_document(rng, n)
+        big.append((doc, D.render(rng, doc, seps=seps, trailing=1)))
     for d in docs[4:]:
         if rng.random() < .01:
             d[0] = [f for f in d[0] if f[0].lower() != 'content-type'] + \
@@ -41,9 +47,11 @@ def run(ctx):
     st = ctx.stream('prop:documents')
     texts_for_corr = []
     mime = 0
-    for doc in docs:
-        text = D.render(rng, doc)
-        texts_for_corr.append(text)
+    for doc, text in [(d, None) for d in docs] + big:
+        is_big = text is not None
+        if not is_big:
+            text = D.render(rng, doc)
+            texts_for_corr.append(text)
         st['cases'] += 1
         ctx.evaluations += 1
         ctx.distinct.add(hash(text))
@@ -62,7 +70,7 @@ def run(ctx):
         mime += container
         if why is None and got_c != want_c:
             why = 'header-style parser gives %r, the document is %r' % (got_c, want_c)
-        if why is None:
+        if why is None and not is_big:
             # independence of separator length and trailing newline
             t2 = D.render(rng, doc)
             try:
@@ -75,11 +83,12 @@ def run(ctx):
                 why = 'raises %s on another layout' % type(e).__name__
         if why:
             st['prop_failures'] += 1
-            fails.append(((text, 'F17' if container else ''), why))
+            fails.append(((text, 'F17' if container else ''), why[:2000]))
     st['mime_container_documents'] = mime
+    st['large_documents_bytes'] = [len(t.encode('utf-8')) for _, t in big]
     # the file routes (UTF-8 files outside /repo and /verif, removed at once)
     fst = ctx.stream('prop:file-route')
-    for text in texts_for_corr[:ctx.n(400, 5000)]:
+    for text in [t for _, t in big] + texts_for_corr[:ctx.n(400, 5000)]:
         p = os.path.join(ctx.scratch, 'doc.txt')
         with open(p, 'w', encoding='utf-8', newline='') as f:
             f.write(text)
